@@ -920,8 +920,8 @@ PROPS = {
         assumptions=OS_ASSUMPTIONS,
     ),
     "C06": dict(
-        modules=["C06", "C06Sys"],
-        theorems=['c06_rejected_record_noop', 'c06_err_is_noop', 'c06_rejected_call_noop', 'c06_batch_rejected_entry_noop', 'c06_spec_rejects_vote', 'c06_spec_rejects_commit', 'c06_batch_refused_entry_noop', 'c06_batch_rejected_entry_noop_any', 'c06_settle_idempotent', 'c06_step_settled', 'c06_reachable_settled', 'c06_sys_rejected_is_identity', 'c06_sys_rejected_single', 'c06_sys_rejected_is_identity_reachable', 'c06_rejected_invisible_forever', 'c06_rejected_invisible_in_history', 'c06_sys_batch_rejected_prefix', 'c06_same_verdict', 'c06_never_rejected', 'c06_sys_same_verdict', 'c06_sys_same_verdict_csys', 'c06_sys_same_verdict_sysRef', 'Sys.runCycles_settled', 'c06_sys_same_verdict_reachable', 'c06_sys_same_verdict_c01', 'c06_sys_batch_same_verdict', 'c06_same_verdict_any', 'c06_sys_same_verdict_any'],
+        modules=["C06", "C06Sys", "C06Normal"],
+        theorems=['c06_normalize_partial', 'c06_normalize_small_partial', 'c06_purgesLegal_of_no_purge', 'c06_normalize_legal_id', 'c01_state_any_history_partial', 'c11_journal_invariant_any_history', 'c15_accounting_exact_any_history', 'c16_read_no_panic_any_history_partial', 'c02_clean_restart_any_history_partial', 'c03_crash_prefix_any_history_partial', 'normalize_run_C6N', 'normalize_rel_C6N', 'normalize_append_C6N', 'c06_rejected_record_noop', 'c06_err_is_noop', 'c06_rejected_call_noop', 'c06_batch_rejected_entry_noop', 'c06_spec_rejects_vote', 'c06_spec_rejects_commit', 'c06_batch_refused_entry_noop', 'c06_batch_rejected_entry_noop_any', 'c06_settle_idempotent', 'c06_step_settled', 'c06_reachable_settled', 'c06_sys_rejected_is_identity', 'c06_sys_rejected_single', 'c06_sys_rejected_is_identity_reachable', 'c06_rejected_invisible_forever', 'c06_rejected_invisible_in_history', 'c06_sys_batch_rejected_prefix', 'c06_same_verdict', 'c06_never_rejected', 'c06_sys_same_verdict', 'c06_sys_same_verdict_csys', 'c06_sys_same_verdict_sysRef', 'Sys.runCycles_settled', 'c06_sys_same_verdict_reachable', 'c06_sys_same_verdict_c01', 'c06_sys_batch_same_verdict', 'c06_same_verdict_any', 'c06_sys_same_verdict_any'],
         gen=scripts_c06, project=proj_c06, footprint=footprint_c06, oracle=oracle_c06,
         explanation="a rejected call is a no-op on the whole model state",
         assumptions=OS_ASSUMPTIONS,
@@ -941,7 +941,8 @@ PROPS = {
         assumptions=OS_ASSUMPTIONS,
     ),
     "C11": dict(
-        theorems=["c11_name_roundtrip", "c11_name_length", "c11_name_injective", "c11_name_order",
+        modules=["C11", "C11Full"],
+        theorems=['c11_call_keeps_rotation_rule', 'c11_rotation_invariant', 'c11_open_chunk_never_full', 'c11_closed_chunks_full_when_closed', 'c11_rotation_never_blocked', 'c11_on_disk_size_def', 'c11_on_disk_size_of_J', 'c11_on_disk_size_files_of_J', 'c11_on_disk_size_is_files_total', 'c11_on_disk_size_is_files_total_reach', 'c11FullExample_wf', 'c11_rotation_blocked_by_existing_file', 'c11_restart_open_chunk_may_be_full', 'c11_rotation_rule_spec', 'c11_rotation_history_from', 'c11_rotation_clean_restart', 'c11_rotation_rule_reach', 'c11FullExample_small', 'c11_reachRot_example', "c11_name_roundtrip", "c11_name_length", "c11_name_injective", "c11_name_order",
                   "c11_segment_is_record_place", "c11_rotation", "c11_new_chunk_abuts"] + ['c11_journal_spec', 'c11_journal_fresh', 'c11_journal_call', 'c11_call_never_exists', 'c11_journal_flush', 'c11_journal_worker', 'c11_journal_workerIdle', 'c11_journal_drain', 'c11_journal_invariant', 'c11_segment_holds_record', 'c11_quiescent_files_exact'],
         gen=scripts_c11, project=proj_c11, oracle=oracle_c11,
         nontrivial=lambda s: len(s) > 5,
